@@ -1626,8 +1626,54 @@ func (ex *Exec) lockCheckMap(st *State, m *Term, in ssa.Instruction) {
 	}
 }
 
+// execSelect: a non-deterministic choice among the cases (every case is
+// explored).  A completed receive on channel c is recorded as recvReady(c), so
+// that contracts of channel-returning functions (ctx.Done) can say what it implies.
 func (ex *Exec) execSelect(st *State, fr *Frame, x *ssa.Select, k func(*State)) {
-	panic(oos("select statement"))
+	if len(st.held) > 0 && x.Blocking {
+		ex.check(st, "lock", ex.site("lock:blocking", x), TFalse, "blocking select while holding a lock", ex.pos(x))
+	}
+	tup := x.Type().(*types.Tuple)
+	ncase := len(x.States)
+	total := ncase
+	if !x.Blocking {
+		total++
+	}
+	rr := ex.env.d.Func("recvReady", SBool, SRef)
+	for i := 0; i < total; i++ {
+		s2 := st
+		if i < total-1 {
+			s2 = st.clone()
+			ex.npaths++
+		}
+		s2.pathID += fmt.Sprintf("s%d", i)
+		idx := i
+		if i >= ncase {
+			idx = -1 // default
+		}
+		vals := []*Val{scalar(ex.intConst(int64(idx))), scalar(ex.fresh("recv_ok", SBool))}
+		for j := 2; j < tup.Len(); j++ {
+			vals = append(vals, ex.freshVal(tup.At(j).Type(), "recv"))
+		}
+		if idx >= 0 {
+			ch := ex.valTerm(ex.val(s2, x.States[idx].Chan))
+			if x.States[idx].Dir == types.RecvOnly {
+				s2.assume(App(rr.Name, SBool, ch))
+			}
+		}
+		s2.regs[x] = &Val{Fs: vals}
+		func() {
+			defer func() {
+				if r := recover(); r != nil {
+					if _, ok := r.(pathAbort); ok {
+						return
+					}
+					panic(r)
+				}
+			}()
+			k(s2)
+		}()
+	}
 }
 
 func (ex *Exec) execRecv(st *State, fr *Frame, x *ssa.UnOp, ch *Val) func(k func(*State)) {
@@ -1813,7 +1859,8 @@ func (ex *Exec) monitorEnter(st *State, fr *Frame, name string, recv *Val, instr
 		return
 	}
 	st.locks[name]++
-	if st.locks[name] == 1 {
+	if st.locks[name] == 1 && st.locks["*cut*"] == 0 {
+		ex.monitorAssuming(st, fr, m, self, base)
 		return
 	}
 	stru := ex.env.resolve(base).Underlying().(*types.Struct)
@@ -1860,6 +1907,17 @@ func (ex *Exec) monitorEnter(st *State, fr *Frame, name string, recv *Val, instr
 		c.names[m.RecvName] = &SV{V: scalar(self), T: types.NewPointer(base)}
 		st.assume(c.EvalBool(m.Inv.Expr))
 	}
+	ex.monitorAssuming(st, fr, m, self, base)
+}
+
+func (ex *Exec) monitorAssuming(st *State, fr *Frame, m *MonitorSpec, self *Term, base types.Type) {
+	if m.Assuming == nil {
+		return
+	}
+	c := ex.frameCtx(st, fr)
+	c.names[m.RecvName] = &SV{V: scalar(self), T: types.NewPointer(base)}
+	st.assume(c.EvalBool(m.Assuming.Expr))
+	ex.trusted["resource assumption of monitor "+m.TypeName+": "+m.Assuming.Src] = true
 }
 
 // monitorExit: Unlock() - the monitor invariant must hold again.
